@@ -6,7 +6,7 @@
    exhibited on the model (open findings K2, K14; the IndexError K3 is fixed, F11). *)
 From Coq Require Import ZArith List Bool String PArith.
 From Droop Require Import Model.KernelBase Model.Arith Model.Prelude Model.State Model.Prims Model.Election
-  Proofs.CmdMeta Proofs.Decided Proofs.Forward Proofs.ForwardCount Proofs.Zlike Proofs.Terminate Proofs.TerminateMeek Proofs.TerminateQpq Proofs.ConserveCount Proofs.Winners.
+  Proofs.CmdMeta Proofs.Decided Proofs.Forward Proofs.ForwardCount Proofs.Zlike Proofs.Terminate Proofs.TerminateMeek Proofs.TerminateQpq Proofs.Conserve Proofs.ConserveCount Proofs.Winners Proofs.MeekRun Proofs.MeekCount.
 Import ListNotations.
 Open Scope Z_scope.
 
@@ -106,6 +106,31 @@ Theorem C01_exact_number_of_winners_scotland_partial : forall A S (ZL : zlike A 
   nlen (electeds A s) = Z.min (cf_nseats cfg) (nlen (eligibles A s)).
 Proof. exact count_winners_scotland. Qed.
 Print Assumptions C01_exact_number_of_winners_scotland_partial.
+
+(* NO WITHDRAWN CANDIDATE IS CREDITED WITH A VOTE (third clause), at the end of every count that ends without a crash:
+   the Gregory family (part of the whole-run invariant of C02/C06) and meek / warren (candidates that are neither hopeful
+   nor elected hold nothing). *)
+Theorem C01_withdrawn_hold_no_votes_gregory_partial : forall A S (ZL : zlike A S) cfg,
+  cf_method cfg = MWigm -> exact A = false -> 0 <= cf_nballots cfg -> 0 <= cf_nseats cfg ->
+  forall r pr fuel s k, greg_rule r -> wf_profile pr ->
+  exec (@crashed A) fuel (count_cmd A cfg r) (init_state A cfg pr) = Some (s, k) -> k <> Abort ->
+  forall c, In c (cands s) -> cst c = Withdrawn -> raw ZL (cvote c) = 0.
+Proof.
+  exact (fun A S ZL cfg H1 H2 H3 H4 r pr fuel s k Hr Hwf He Hk =>
+           g_wd A S ZL _ s (proj1 (count_conserves A S ZL cfg H1 H2 H3 H4 r pr fuel s k Hr Hwf He Hk))).
+Qed.
+Print Assumptions C01_withdrawn_hold_no_votes_gregory_partial.
+
+Theorem C01_withdrawn_hold_no_votes_meek_partial : forall A S (ZL : zlike A S) cfg, cf_method cfg = MMeek ->
+  forall pr fuel s k, wf_profile_m pr ->
+  exec (@crashed A) fuel (count_cmd A cfg RMeek) (init_state A cfg pr) = Some (s, k) -> k <> Abort ->
+  forall c, In c (cands s) -> cst c = Withdrawn -> raw ZL (cvote c) = 0.
+Proof.
+  exact (fun A S ZL cfg Hm pr fuel s k Hwf He Hk c Hc Hw =>
+           mi_z0 A S ZL cfg _ s (count_meek_inv A S ZL cfg Hm pr fuel s k Hwf He Hk) c Hc
+                 ltac:(unfold is_he, in_state; rewrite Hw; reflexivity)).
+Qed.
+Print Assumptions C01_withdrawn_hold_no_votes_meek_partial.
 
 (* the full statement is FALSE for meek under guarded arithmetic with guard > 0: the model (which agrees with the
    code on this input, corpus K2) ends in a ZeroDivisionError.  5 candidates, 4 seats, ballots "1: 3 1 5", "5: 5". *)
